@@ -105,3 +105,51 @@ impl<T> IterFold<T> for Vec<T> {
     open spec fn fitems(&self) -> Seq<T> { self@ }
     #[verifier::external_body] fn fold<B, F: Fn(B, T) -> B>(self, init: B, f: F) -> (r: B) { unimplemented!() }
 }
+// ---- rayon flat_map / try_fold / try_reduce, HashMap::extend, FxHashSet (A-ITER / A-RAYON)
+/// flat_map: every produced item appears in the result and every result item was produced (membership level; order and
+/// multiplicity are not specified -- the repo only collects the result into a map keyed by the item)
+pub open spec fn flat_map_decided<T, U, F: Fn(T) -> Vec<U>>(f: F, items: Seq<T>, out: Seq<U>, parts: Seq<Vec<U>>) -> bool {
+    &&& parts.len() == items.len() && (forall|i: int| 0 <= i < items.len() ==> call_ensures(f, (items[i],), #[trigger] parts[i]))
+    &&& forall|i: int, j: int| 0 <= i < parts.len() && 0 <= j < parts[i]@.len() ==> out.contains(#[trigger] parts[i]@[j])
+    &&& forall|x: U| out.contains(x) ==> exists|i: int, j: int| 0 <= i < parts.len() && 0 <= j < parts[i]@.len() && x == #[trigger] parts[i]@[j]
+}
+pub trait IterChain3<T>: Sized {
+    spec fn items3(&self) -> Seq<T>;
+    fn flat_map<U, F: Fn(T) -> Vec<U>>(self, f: F) -> (r: Vec<U>)
+        requires forall|i: int| 0 <= i < self.items3().len() ==> call_requires(f, (#[trigger] self.items3()[i],)),
+        ensures exists|parts: Seq<Vec<U>>| #[trigger] flat_map_decided(f, self.items3(), r@, parts);
+    /// rayon try_fold followed by try_reduce is modelled as ONE sequential chunk: try_fold yields the left fold of the
+    /// items from identity() (stopping at the first Err); rayon may split the items into several chunks and report any of
+    /// the errors -- results that depend on the split are outside this model (A-RAYON)
+    fn try_fold<A, E, ID: Fn() -> A, F: Fn(A, T) -> Result<A, E>>(self, identity: ID, fold_op: F) -> (r: TryFolded<A, E>)
+        requires call_requires(identity, ()), forall|a: A, i: int| 0 <= i < self.items3().len() ==> #[trigger] call_requires(fold_op, (a, self.items3()[i])),
+        ensures exists|accs: Seq<A>| #[trigger] try_fold_decided(identity, fold_op, self.items3(), accs, r.val);
+}
+/// accs: the accumulators reached before the fold stopped (accs[0] = identity(); one more per Ok step)
+pub open spec fn try_fold_decided<T, A, E, ID: Fn() -> A, F: Fn(A, T) -> Result<A, E>>(identity: ID, f: F, items: Seq<T>, accs: Seq<A>, r: Result<A, E>) -> bool {
+    &&& 1 <= accs.len() <= items.len() + 1 && call_ensures(identity, (), accs[0])
+    &&& forall|i: int| 0 <= i < accs.len() - 1 ==> call_ensures(f, (accs[i], items[i]), Ok::<A, E>(#[trigger] accs[i + 1]))
+    &&& match r { Ok(v) => accs.len() == items.len() + 1 && v == accs[items.len() as int],
+                  Err(e) => accs.len() <= items.len() && call_ensures(f, (accs[accs.len() - 1], items[accs.len() - 1]), r) }
+}
+pub struct TryFolded<A, E> { pub val: Result<A, E> }
+impl<A, E> TryFolded<A, E> {
+    /// one chunk: the reduction of a single partial result with the identity (either side), or the partial result itself
+    #[verifier::external_body]
+    pub fn try_reduce<ID: Fn() -> A, G: Fn(A, A) -> Result<A, E>>(self, identity: ID, op: G) -> (r: Result<A, E>)
+        requires call_requires(identity, ()), forall|a: A, b: A| #[trigger] call_requires(op, (a, b)),
+        ensures match self.val { Err(e) => r == self.val,
+                    Ok(v) => r == self.val || exists|i0: A| call_ensures(identity, (), i0) && (#[trigger] call_ensures(op, (i0, v), r) || call_ensures(op, (v, i0), r)) }
+    { unimplemented!() }
+}
+impl<T> IterChain3<T> for Vec<T> {
+    open spec fn items3(&self) -> Seq<T> { self@ }
+    #[verifier::external_body] fn flat_map<U, F: Fn(T) -> Vec<U>>(self, f: F) -> (r: Vec<U>) { unimplemented!() }
+    #[verifier::external_body] fn try_fold<A, E, ID: Fn() -> A, F: Fn(A, T) -> Result<A, E>>(self, identity: ID, fold_op: F) -> (r: TryFolded<A, E>) { unimplemented!() }
+}
+/// rayon `into_par_iter()` on a slice reference: the Vec of element references
+pub trait IntoParIterExt<'a, T> { spec fn ipitems(&self) -> Seq<T>; fn into_par_iter(self) -> (r: Vec<&'a T>) ensures refs_of(r@, self.ipitems()); }
+impl<'a, T> IntoParIterExt<'a, T> for &'a [T] { open spec fn ipitems(&self) -> Seq<T> { self@ } #[verifier::external_body] fn into_par_iter(self) -> (r: Vec<&'a T>) { unimplemented!() } }
+/// HashMap::extend(other map) (rule R17 rewrites `X.extend(Y)` to `map_extend(&mut X, Y)`: std's Extend trait method cannot carry a spec): right-biased union
+#[verifier::external_body]
+pub fn map_extend<K, V>(m: &mut HashMap<K, V>, other: HashMap<K, V>) ensures final(m)@ == old(m)@.union_prefer_right(other@) { unimplemented!() }
